@@ -189,9 +189,8 @@ class SSH_Socket(ReadBuf, WriteBuf):
         e = None
         while s >= 0:
             s, e = self.recv()
-            if s < 0:
-                continue
-            while self.unread_len > 0:
+            # Only consume complete lines, since a line may arrive split across several TCP segments.  Once the peer stops sending (s < 0), a trailing line without a terminator is processed as well.
+            while self.unread_len > 0 and (s < 0 or self.has_line()):
                 line = self.read_line()
                 if len(line.strip()) == 0:
                     continue
